@@ -39,7 +39,7 @@ Inductive kind2 :=
 | KMul | KDiv | KAdd | KSub | KEq | KLt | KLte | KGt | KGte
 | KAnd | KOr | KQuery | KColon | KCons | KSeq | KDefine | KLambda | KCall.
 
-Inductive builtin := BToInt | BAbs.
+Inductive builtin := BToInt | BAbs | BNull.
 
 Inductive op : Type :=
 | OValue (v : value)
@@ -350,10 +350,10 @@ End Parser.
 Definition parse_fuel (ts : list tok) : nat := (40 * (length ts + 2))%nat.
 
 (* ------------------------------------------------------------------ print *)
-(* op_t::print to the token level.  Operators other than O_CALL and O_DEFINE are wrapped
-   in parentheses; O_QUERY prints `(c ? ` + its O_COLON child, which itself prints
-   `(a : b)` - the text `(c ? (a : b))` the parser does not accept (finding F6).
-   NULL_VALUE dumps as the word `null`. *)
+(* op_t::print to the token level.  Operators other than O_CALL, O_DEFINE and O_COLON are
+   wrapped in parentheses, so a conditional prints `(c ? a : b)` (before /repo b45ea7d the
+   O_COLON child was parenthesised too and the text `(c ? (a : b))` did not parse: F6).
+   NULL_VALUE dumps as the word `null`, which is the name of a built-in returning NULL_VALUE. *)
 
 Definition bin_tok (k : kind2) : list tok :=
   match k with
@@ -404,6 +404,8 @@ Fixpoint pp (o : op) : list tok * list tok :=
                    | Some x => TSemi :: (if is_seq x then snd (pp x) else fst (pp x))
                    end in
       (TLParen :: inner ++ [TRParen], inner)
+  | OBin KColon l r =>
+      let t := fst (pp l) ++ TColon :: match r with Some b => fst (pp b) | None => [] end in (t, t)
   | OBin k l r =>
       let t := TLParen :: fst (pp l) ++ bin_tok k ++
                match r with Some b => fst (pp b) | None => [] end ++ [TRParen] in (t, t)
@@ -476,7 +478,8 @@ Definition to_int_name : str := [116; 111; 95; 105; 110; 116].
 Definition abs_name : str := [97; 98; 115].
 Definition builtin_of (s : str) : option builtin :=
   if str_eqb s to_int_name then Some BToInt
-  else if str_eqb s abs_name then Some BAbs else None.
+  else if str_eqb s abs_name then Some BAbs
+  else if str_eqb s null_word then Some BNull else None.
 
 (* parameter names of a lambda: a single IDENT or a CONS chain of IDENTs *)
 Fixpoint param_names (fuel : nat) (o : option op) : res (list str) :=
@@ -512,22 +515,6 @@ Definition to_int_value (v : value) : res value :=
   | _ => Err EOther
   end.
 
-(* value_t::is_equal_to.  The AMOUNT == INTEGER cell is `as_amount() == val.as_long()`, which
-   selects the template amount_t::operator==(const T&) = (compare(val) == 0): quantities only,
-   whereas INTEGER == AMOUNT is amount_t::operator==(const amount_t&), which also compares
-   the commodities (Model/Amount.v transcribes the latter for both cells). *)
-Definition x_eqb (v w : value) : res bool :=
-  match v, w with
-  | VAmt a, VInt y => do c <- amt_compare a (amt_of_Z y); Ok (match c with Eq => true | _ => false end)
-  | _, _ => v_eqb v w
-  end.
-
-(* value_t::is_less_than converts a BALANCE operand with val.to_amount(), i.e.
-   in_place_cast(AMOUNT), which turns an EMPTY balance into the amount 0 (value.cc
-   in_place_cast; Model/Amount.v's bal_to_amount rejects it) *)
-Definition zero_bal (v : value) : value :=
-  match v with VBal [] => VBal [amt_of_Z 0] | _ => v end.
-
 (* BALANCE < INTEGER/AMOUNT walks the unordered_map and stops at the first entry that is not
    below the operand; an entry of another commodity raises an error.  With both kinds of entry
    present the outcome depends on the hash-table order: the model answers with this marker
@@ -538,24 +525,12 @@ Definition is_ok_false (r : res bool) : bool := match r with Ok false => true | 
 Definition is_err {A} (r : res A) : bool := match r with Err _ => true | _ => false end.
 
 Definition x_ltb (v w : value) : res bool :=
-  match w with
-  | VBal _ => v_ltb (zero_bal v) (zero_bal w)
-  | _ =>
-      match v with
-      | VBal b =>
-          let rs := map (v_gt_amt w) b in
-          if existsb is_ok_false rs && existsb is_err rs then Err E_order_dependent
-          else v_ltb v w
-      | _ => v_ltb v w
-      end
-  end.
-
-(* balance_t::abs() rebuilds the balance with += of each |amount|, and += ignores a real-zero
-   amount: zero entries disappear (Model/Amount.v's v_abs keeps them) *)
-Definition x_abs (v : value) : res value :=
-  match v with
-  | VBal b => Ok (VBal (filter (fun a => negb (is_realzero a)) (map amt_abs b)))
-  | _ => v_abs false v    (* ord only matters for balances, handled above *)
+  match v, w with
+  | VBal b, VInt _ | VBal b, VAmt _ =>
+      let rs := map (v_gt_amt w) b in
+      if existsb is_ok_false rs && existsb is_err rs then Err E_order_dependent
+      else v_ltb v w
+  | _, _ => v_ltb v w
   end.
 
 Definition arith (ord : bool) (cp : comm -> Z) (k : kind2) (v w : value) : res value :=
@@ -564,7 +539,7 @@ Definition arith (ord : bool) (cp : comm -> Z) (k : kind2) (v w : value) : res v
   | KSub => v_sub ord v w
   | KMul => v_mul cp v w
   | KDiv => v_div cp v w
-  | KEq => do b <- x_eqb v w; Ok (VBool b)
+  | KEq => do b <- v_eqb v w; Ok (VBool b)
   | KLt => do b <- x_ltb v w; Ok (VBool b)
   | KGt => do b <- x_ltb w v; Ok (VBool b)
   | KLte => do b <- x_ltb w v; Ok (VBool (negb b))
@@ -615,12 +590,14 @@ Fixpoint calc (n : nat) (tbl : symtab) (sc : frame) (o : op) {struct n} : res xv
           end
       end
   | OPlug => Err EOther
+  | OFunc BNull => Ok (XV VVoid)             (* fn_null takes no argument *)
   | OFunc _ => Err EOther
   | OScope b => calc n' tbl sc b
   | OBin KLambda _ _ => Ok (XFun o)
   | OBin KCall f a =>
       do fn <- find_def n' tbl sc f;
       (match fn with
+       | OFunc BNull => Ok (XV VVoid)
        | OFunc b =>
            match call_args n' a with
            | x :: _ =>
@@ -628,7 +605,8 @@ Fixpoint calc (n : nat) (tbl : symtab) (sc : frame) (o : op) {struct n} : res xv
                do v <- the_value xv;
                (match b with
                 | BToInt => do r <- to_int_value v; Ok (XV r)
-                | BAbs => do r <- x_abs v; Ok (XV r)
+                | BAbs => do r <- v_abs ord v; Ok (XV r)
+                | BNull => Ok (XV VVoid)
                 end)
            | [] => Err EOther
            end
@@ -724,6 +702,8 @@ Variable ord : bool.
 Variable cp : comm -> Z.
 
 Definition is_value (o : op) : bool := match o with OValue _ => true | _ => false end.
+(* the two branches of a conditional are not an operation on their own (op.cc:216-219) *)
+Definition is_colon (k : kind2) : bool := match k with KColon => true | _ => false end.
 
 Definition in_names (s : str) (ps : list str) : bool := existsb (str_eqb s) ps.
 
@@ -796,7 +776,7 @@ Fixpoint compile (n : nat) (tbl : symtab) (ps : list str) (o : op) {struct n} : 
        | Some r' =>
            do c2 <- compile n' (c_tbl c1) ps r';
            if c_changed c1 || c_changed c2 then
-             (if is_value (c_op c1) && is_value (c_op c2)
+             (if negb (is_colon k) && is_value (c_op c1) && is_value (c_op c2)
               then do x <- calc ord cp n' (c_tbl c2) [] (OBin k (c_op c1) (Some (c_op c2)));
                    do w <- wrap_xval x; Ok (mkC w true (c_tbl c2))
               else Ok (mkC (OBin k (c_op c1) (Some (c_op c2))) true (c_tbl c2)))
